@@ -1440,6 +1440,22 @@ class TableRun(Stream):
             c = {"dims": dims, "metric": ["1"] * dims, "orth": True, "euclid": True}
             yield case(c, "MultiVector.__init__", [["vec", [str(rand_frac(rng)) for _ in range(dims)]]])
             yield case(c, "MultiVector.__init__", [["vec", ["1"] * (dims + 1)], ["space"]])
+        # wide bitmaps (spaces with up to 130 basis vectors, indices far apart): the loops over the
+        # bits of bit_count / canonical_reordering_sign / _shared_metric_coeff and what is built on them
+        for _ in range(40 * mult):
+            dims = wide_dims(rng, tier)
+            c = ctx(dims)
+            ia = wide_indices(rng, dims)
+            ib = wide_partner(rng, dims, ia)
+            a, b = bits_of(ia), bits_of(ib)
+            yield case(c, "bit_count", [["int", a]])
+            yield case(c, "canonical_reordering_sign", [["int", a], ["int", b]])
+            yield case(c, "_shared_metric_coeff", [["int", a & b], ["space"]])
+            yield case(c, f"{rng.choice(PRODUCT_CLASSES)}.orthogonal_blade_product_weight",
+                       [["int", a], ["int", b], ["space"]])
+            yield case(c, f"MultiVector.{rng.choice(BINARY_METHODS[4:14:2])}",
+                       [["mv", [[a, str(rand_frac(rng, zero_ok=False))]]],
+                        ["mv", [[b, str(rand_frac(rng, zero_ok=False))]]]])
 
     def _space(self, pl):
         from pymbolic import geometric_algebra as ga
@@ -1506,6 +1522,421 @@ class TableRun(Stream):
         fs[pl["fn"]] = fs.get(pl["fn"], 0) + 1
         if io.startswith("(raise"):
             acc["raised"] = acc.get("raised", 0) + 1
+
+# }}}
+
+
+# {{{ wide spaces: the same laws on SPARSE elements of spaces with many basis vectors
+
+# The property is stated "over any space with a diagonal metric"; the exhaustive streams above stop
+# at 4 (5) basis vectors, i.e. at bitmaps below 2**5.  Bitmaps are unbounded Python ints and the
+# reordering sign / grade / metric weight are bit tricks on them, so everything that depends on HOW
+# FAR APART two basis vectors are, or on how many bits a bitmap has (a window of a folding trick, a
+# machine-word popcount, a table of the low bits, ...) only shows in wide spaces.  The streams of
+# this section run the oracles of the small-space streams (and a few more) on sparse blades and
+# multivectors of spaces with 6 .. 130 basis vectors whose indices are picked around every
+# power-of-two distance.
+
+#: numbers of basis vectors: around every power of two up to 128
+WIDE_DIMS = [6, 7, 8, 9, 10, 11, 12, 13, 15, 16, 17, 18, 20, 24, 31, 32, 33, 34, 40, 48, 63, 64, 65,
+             66, 72, 96, 127, 128, 129, 130]
+#: index distances: around every power of two
+WIDE_GAPS = [1, 2, 3, 4, 5, 7, 8, 9, 10, 15, 16, 17, 18, 31, 32, 33, 34, 63, 64, 65, 66, 127, 128, 129]
+
+
+def bits_of(idx):
+    b = 0
+    for i in idx:
+        b |= 1 << i
+    return b
+
+
+def inversion_sign(ia, ib):
+    """sign of sorting the concatenation of two sorted index lists: one flip per pair (i in a, j in
+    b) with i > j (pairs with i == j do not move past each other)"""
+    n = sum(1 for i in ia for j in ib if i > j)
+    return -1 if n % 2 else 1
+
+
+def wide_dims(rng, tier):
+    return rng.choice(WIDE_DIMS if tier != "quick" or rng.random() < 0.5 else WIDE_DIMS[:20])
+
+
+def wide_indices(rng, dims, maxgrade=4):
+    """a sorted index list of a sparse blade of a space with `dims` basis vectors"""
+    mode = rng.randrange(7)
+    if mode == 0:       # uniform
+        return sorted(rng.sample(range(dims), rng.randint(0, min(maxgrade, dims))))
+    if mode == 1:       # lowest against highest basis vectors
+        pool = sorted(set(list(range(min(3, dims))) + list(range(max(0, dims - 3), dims))))
+        return sorted(rng.sample(pool, rng.randint(1, min(maxgrade, len(pool)))))
+    if mode == 2:       # a chain with distances around the powers of two
+        idx = [rng.randrange(min(dims, 4))]
+        while len(idx) < maxgrade:
+            nxt = idx[-1] + rng.choice(WIDE_GAPS)
+            if nxt >= dims:
+                break
+            idx.append(nxt)
+        return idx
+    if mode == 3:       # one basis vector
+        return [rng.randrange(dims)]
+    if mode == 4:       # a contiguous run (crosses the word boundaries now and then)
+        n = rng.randint(1, min(maxgrade + 2, dims))
+        lo = rng.randrange(dims - n + 1)
+        return list(range(lo, lo + n))
+    if mode == 5:       # the same chain counted from the top
+        idx = [dims - 1 - rng.randrange(min(dims, 4))]
+        while len(idx) < maxgrade:
+            nxt = idx[-1] - rng.choice(WIDE_GAPS)
+            if nxt < 0:
+                break
+            idx.append(nxt)
+        return sorted(idx)
+    # dense: every index with probability 1/2 (high grades)
+    return [i for i in range(dims) if rng.random() < 0.5]
+
+
+def wide_partner(rng, dims, ia, maxgrade=4):
+    """a second blade: independent, or related to the first (sub-/superset, shifted copy, equal) so
+    that contractions, metric factors and vanishing outer products all occur"""
+    mode = rng.randrange(6)
+    if mode <= 1 or not ia:
+        return wide_indices(rng, dims, maxgrade)
+    if mode == 2:       # a subset
+        return sorted(rng.sample(ia, rng.randint(0, len(ia))))
+    if mode == 3:       # a superset
+        extra = wide_indices(rng, dims, 2)
+        return sorted(set(ia) | set(extra))
+    if mode == 4:       # shifted copy
+        g = rng.choice(WIDE_GAPS) * rng.choice([1, -1])
+        return sorted({i + g for i in ia if 0 <= i + g < dims})
+    return list(ia)
+
+
+def wide_metric(rng, dims, values):
+    kind = rng.randrange(4)
+    if kind == 0:
+        return [values[0]] * dims
+    if kind == 1:
+        return [rng.choice(values[:2]) for _ in range(dims)]
+    return [rng.choice(values) for _ in range(dims)]
+
+
+_WIDE_SPACES: dict = {}
+
+
+def wide_space(dims, metric):
+    """the Space of a payload, kept for a while: building the 130 x 130 object matrix and testing
+    it for orthogonality costs more than the products under test (the cases of a run share few
+    metrics); the Space object itself is immutable"""
+    key = (dims, tuple(str(g) for g in metric))
+    sp = _WIDE_SPACES.get(key)
+    if sp is None:
+        if len(_WIDE_SPACES) > 64:
+            _WIDE_SPACES.clear()
+        sp = _WIDE_SPACES[key] = fspace(dims, [str(g) for g in metric])
+    return sp
+
+
+def compress_positions(dims, used):
+    """positions of a space that no index of the case uses, highest first (for shrinking)"""
+    return [p for p in range(dims - 1, -1, -1) if p not in used]
+
+
+def drop_position(idx, p):
+    return [i - 1 if i > p else i for i in idx]
+
+
+def wide_mv_shrink(pl, keys, one):
+    """smaller payloads of a wide multivector case: fewer terms, fewer basis vectors per blade,
+    unused basis vectors of the space removed (the others renumbered), unit metric"""
+    for key in keys:
+        for k in list(pl[key]):
+            if len(pl[key]) > 1:
+                d = dict(pl[key])
+                del d[k]
+                yield {**pl, key: d}
+    for key in keys:
+        for k in list(pl[key]):
+            for i in blade_list(int(k)):
+                k2 = str(int(k) & ~(1 << i))
+                if k2 not in pl[key]:
+                    yield {**pl, key: {(k2 if kk == k else kk): v for kk, v in pl[key].items()}}
+    used = set()
+    for key in keys:
+        for k in pl[key]:
+            used |= set(blade_list(int(k)))
+    for p in compress_positions(pl["dims"], used):
+        yield {**pl, "dims": pl["dims"] - 1, "metric": pl["metric"][:p] + pl["metric"][p + 1:],
+               **{key: {str(bits_of(drop_position(blade_list(int(k)), p))): v
+                        for k, v in pl[key].items()} for key in keys}}
+    if any(g != one for g in pl["metric"]):
+        yield {**pl, "metric": [one] * pl["dims"]}
+    for key in keys:
+        for k, v in pl[key].items():
+            if v != one:
+                yield {**pl, key: {**pl[key], k: one}}
+
+
+class WideBladePairs(BladePairs):
+    """pairs of sparse basis blades in spaces with 6 .. 130 basis vectors (every pair of basis
+    vectors of one space exhaustively, index distances around every power of two at random), any
+    diagonal metric over {1,-1,0,2}: reordering sign = inversion parity, the six blade weights vs
+    the list-based multiplication (correspondence: the same `ga-blade` request as the small
+    spaces), and the same statements on the real MultiVector objects - basis vectors square to the
+    metric entry and anticommute, the six products of the two blades are the grade parts of the
+    list-based geometric product, reverse is an anti-automorphism, the inverse of a non-null blade
+    times the blade is 1, index tuples in any order denote the signed blade, bit_count = grade"""
+    name = "wide-blade-pairs"
+
+    def cases(self, rng, tier):
+        # every ordered pair of basis vectors of one wide space (all index distances below dims)
+        dims = rng.choice([20, 24, 31, 33] if tier == "quick" else [66, 72, 96])
+        metric = wide_metric(rng, dims, METRIC_VALUES)
+        for i in range(dims):
+            for j in range(dims):
+                yield self._case(rng, dims, metric, [i], [j])
+        # every pair of basis vectors at a distance around a power of two, widest space
+        dims = WIDE_DIMS[-1]
+        metric = wide_metric(rng, dims, METRIC_VALUES)
+        for g in WIDE_GAPS:
+            for lo in sorted(x for x in {0, 1, rng.randrange(dims - g), dims - g - 1} if x + g < dims):
+                yield self._case(rng, dims, metric, [lo + g], [lo])
+                yield self._case(rng, dims, metric, [lo], [lo + g])
+        n = 1500 if tier == "quick" else 30000
+        for _ in range(n):
+            dims = wide_dims(rng, tier)
+            metric = wide_metric(rng, dims, METRIC_VALUES)
+            ia = wide_indices(rng, dims)
+            ib = wide_partner(rng, dims, ia)
+            yield self._case(rng, dims, metric, ia, ib)
+
+    def _weights(self, pl):
+        from pymbolic.geometric_algebra import (_GeometricProduct, _InnerProduct,
+                                                _LeftContractionProduct, _OuterProduct,
+                                                _RightContractionProduct, _ScalarProduct,
+                                                canonical_reordering_sign)
+        sp = wide_space(pl["dims"], pl["metric"])
+        a, b = pl["a"], pl["b"]
+        ws = [c.orthogonal_blade_product_weight(a, b, sp) for c in
+              (_OuterProduct, _GeometricProduct, _InnerProduct, _LeftContractionProduct,
+               _RightContractionProduct, _ScalarProduct)]
+        return canonical_reordering_sign(a, b), ws
+
+    @staticmethod
+    def _case(rng, dims, metric, ia, ib):
+        order = list(ia)
+        rng.shuffle(order)
+        return {"dims": dims, "metric": list(metric), "a": bits_of(ia), "b": bits_of(ib),
+                "ca": str(rand_frac(rng, zero_ok=False)), "cb": str(rand_frac(rng, zero_ok=False)),
+                "order": order}
+
+    def oracle(self, pl):  # noqa: C901
+        from pymbolic.geometric_algebra import MultiVector, bit_count, canonical_reordering_sign
+        a, b, metric, dims = pl["a"], pl["b"], pl["metric"], pl["dims"]
+        ia, ib = blade_list(a), blade_list(b)
+        where = f"space with {dims} basis vectors, metric {metric}: e{tuple(ia)} and e{tuple(ib)}"
+        for x in (a, b):
+            if bit_count(x) != len(blade_list(x)):
+                return Failure("bit-count", f"bit_count({x}) = {bit_count(x)}, the blade "
+                               f"e{tuple(blade_list(x))} has grade {len(blade_list(x))}", pl)
+        s = canonical_reordering_sign(a, b)
+        if s != inversion_sign(ia, ib):
+            return Failure("reorder-sign", f"canonical_reordering_sign({a}, {b}) = {s} but sorting "
+                           f"the concatenation of {ia} and {ib} takes an "
+                           f"{'odd' if inversion_sign(ia, ib) < 0 else 'even'} number of swaps", pl)
+        f = super().oracle(pl)
+        if f is not None:
+            f.detail = where + ": " + f.detail
+            return f
+        # the same on the real objects
+        sp = wide_space(dims, metric)
+        ca, cb = Fraction(pl["ca"]), Fraction(pl["cb"])
+        A, B = MultiVector({a: ca}, sp), MultiVector({b: cb}, sp)
+        da, db = {a: ca}, {b: cb}
+
+        def coeffs(m):
+            return {k: v for k, v in data_of(m).items() if v != 0}
+        if len(ia) == 1 and len(ib) == 1:
+            e, f_ = MultiVector({a: 1}, sp), MultiVector({b: 1}, sp)
+            if a == b:
+                g = metric[ia[0]]
+                if coeffs(e * e) != ({0: g} if g != 0 else {}):
+                    return Failure("basis-square", f"{where}: e{ia[0]}*e{ia[0]} = {e * e!r}, the "
+                                   f"metric entry is {g}", pl)
+            else:
+                if coeffs(e * f_ + f_ * e) or not (e * f_ == -(f_ * e)) or not coeffs(e * f_):
+                    return Failure("basis-anticommute", f"{where}: e{ia[0]}*e{ib[0]} = {e * f_!r}, "
+                                   f"e{ib[0]}*e{ia[0]} = {f_ * e!r}", pl)
+        got = {"geometric": A * B, "outer": A ^ B, "inner": A | B, "lc": A << B, "rc": A >> B}
+        for kind, r in got.items():
+            want = grade_part_product(da, db, metric, kind)
+            if coeffs(r) != want:
+                return Failure(f"mv-blade-{kind}", f"{where}: the {kind} product of {A!r} and {B!r} "
+                               f"is {r!r}, the grade part of the list-based geometric product "
+                               f"is {want}", pl)
+            clean = MultiVector(dict(want), sp)
+            if not (r == clean) or hash(r) != hash(clean) or bool(r) != bool(want):
+                return Failure("result-eq-coeffwise", f"{where}: {kind} product {r!r} vs its "
+                               f"non-zero coefficients {clean!r}: ==, hash or bool differ", pl)
+        want = grade_part_product(da, db, metric, "scalar").get(0, 0)
+        if A.scalar_product(B) != want:
+            return Failure("mv-blade-scalar", f"{where}: scalar_product = {A.scalar_product(B)!r}, "
+                           f"the scalar part of the list-based geometric product is {want}", pl)
+        # reverse: the sign (-1)^(r(r-1)/2) of reversing the factors; an anti-automorphism
+        ra = len(ia)
+        if coeffs(A.rev()) != {a: ca * (-1) ** (ra * (ra - 1) // 2)}:
+            return Failure("rev-sign", f"{where}: rev({A!r}) = {A.rev()!r}", pl)
+        if coeffs((A * B).rev()) != coeffs(B.rev() * A.rev()):
+            return Failure("rev", f"{where}: rev(A*B) = {(A * B).rev()!r} but rev(B)*rev(A) = "
+                           f"{B.rev() * A.rev()!r}", pl)
+        if coeffs((A * B).invol()) != coeffs(A.invol() * B.invol()):
+            return Failure("invol", f"{where}: invol is not an automorphism on {A!r}, {B!r}", pl)
+        # norm_squared and the inverse of a non-null blade
+        nsq = ca * ca
+        for i in ia:
+            nsq *= metric[i]
+        if A.norm_squared() != nsq:
+            return Failure("norm-squared", f"{where}: norm_squared({A!r}) = {A.norm_squared()!r}, "
+                           f"expected {nsq}", pl)
+        if nsq != 0:
+            try:
+                inv = A.inv()
+            except (ZeroDivisionError, NotImplementedError) as ex:
+                return Failure("blade-inv-refused", f"{where}: inv({A!r}) raises "
+                               f"{type(ex).__name__} for a non-null blade", pl)
+            if coeffs(inv * A) != {0: 1} or coeffs(A * inv) != {0: 1} or \
+                    list_mul(coeffs(inv), da, metric) != {0: 1}:
+                return Failure("blade-inv", f"{where}: inv(A)*A = {inv * A!r} for A = {A!r}", pl)
+        # index tuples in any order: e_i ^ e_j ^ ... with the sign of the permutation
+        order = pl["order"]
+        if order:
+            T = MultiVector({tuple(order): ca}, sp)
+            inv_count = sum(1 for x in range(len(order)) for y in range(x) if order[y] > order[x])
+            want = {a: ca * (-1) ** inv_count}
+            if coeffs(T) != want:
+                return Failure("init-index-tuple", f"{where}: MultiVector({{{tuple(order)}: {ca}}}) "
+                               f"= {T!r}, expected {want}", pl)
+        return None
+
+    def shrink(self, pl):
+        ia, ib = blade_list(pl["a"]), blade_list(pl["b"])
+        dims = pl["dims"]
+
+        def mk(ia2, ib2, dims2=None, metric=None):
+            return {**pl, "a": bits_of(ia2), "b": bits_of(ib2), "order": sorted(ia2),
+                    "dims": dims if dims2 is None else dims2,
+                    "metric": pl["metric"] if metric is None else metric}
+        for i in ia:
+            yield mk([x for x in ia if x != i], ib)
+        for i in ib:
+            yield mk(ia, [x for x in ib if x != i])
+        for p in compress_positions(dims, set(ia) | set(ib)):
+            yield mk(drop_position(ia, p), drop_position(ib, p), dims - 1,
+                     pl["metric"][:p] + pl["metric"][p + 1:])
+        if any(g != 1 for g in pl["metric"]):
+            yield {**pl, "metric": [1] * dims}
+        for k in ("ca", "cb"):
+            if pl[k] != "1":
+                yield {**pl, k: "1"}
+        if pl["order"] != sorted(pl["order"]):
+            yield {**pl, "order": sorted(pl["order"])}
+
+    def nontrivial_key(self, pl, model, impl):
+        return f"{pl['dims']} {pl['metric']} {pl['a']} {pl['b']}" if pl["a"] and pl["b"] else None
+
+    def stats(self, pl, mo, io, acc):
+        ia, ib = blade_list(pl["a"]), blade_list(pl["b"])
+        d = max([i - j for i in ia for j in ib] + [0])      # how far a vector of a moves past b
+        bucket = "0" if d == 0 else f"<2^{d.bit_length()}"
+        by = acc.setdefault("by_max_index_distance", {})
+        by[bucket] = by.get(bucket, 0) + 1
+
+
+def sparse_terms(rng, dims, maxterms, coef, shared=None):
+    """a sparse coefficient dict (bitmap -> coefficient text) of a wide space; terms may be related
+    to the blades of `shared` so that products have like terms to collect and cancel"""
+    d = {}
+    pool = [blade_list(int(k)) for k in (shared or {})]
+    for _ in range(rng.randint(0, maxterms)):
+        if pool and rng.random() < 0.4:
+            idx = wide_partner(rng, dims, rng.choice(pool), 3)
+        else:
+            idx = wide_indices(rng, dims, 3)
+        if len(idx) > 6:
+            idx = sorted(rng.sample(idx, 6))
+        d[str(bits_of(idx))] = coef()
+    return d
+
+
+class WideMultiVectors(MultiVectors):
+    """sparse integer multivectors and triples of sparse blades in spaces with 6 .. 130 basis
+    vectors: associativity, bilinearity, reverse / involution (anti-)automorphism, ==/hash/bool
+    (the oracle and the `ga-mv` correspondence of `multivectors`)"""
+    name = "multivectors-wide"
+
+    def _objs(self, pl):
+        sp = wide_space(pl["dims"], pl["metric"])
+        return sp, *[make({int(k): v for k, v in pl[x].items()}, sp) for x in "abc"]
+
+    def cases(self, rng, tier):
+        coef = lambda: rng.choice([-3, -2, -1, 1, 2, 3])  # noqa: E731
+        for _ in range(250 if tier == "quick" else 5000):
+            dims = wide_dims(rng, tier)
+            metric = wide_metric(rng, dims, METRIC_VALUES)
+            a = sparse_terms(rng, dims, 3, coef)
+            b = sparse_terms(rng, dims, 3, coef, a)
+            c = sparse_terms(rng, dims, 2, coef, b)
+            yield {"dims": dims, "metric": metric, "a": a, "b": b, "c": c}
+        # triples of blades
+        for _ in range(350 if tier == "quick" else 6000):
+            dims = wide_dims(rng, tier)
+            metric = wide_metric(rng, dims, METRIC_VALUES)
+            ia = wide_indices(rng, dims, 3)
+            ib = wide_partner(rng, dims, ia, 3)
+            ic = wide_partner(rng, dims, rng.choice([ia, ib]), 3)
+            yield {"dims": dims, "metric": metric, "a": {str(bits_of(ia)): 1},
+                   "b": {str(bits_of(ib)): 1}, "c": {str(bits_of(ic)): 1}}
+
+    def shrink(self, pl):
+        return wide_mv_shrink(pl, "abc", 1)
+
+
+class WideFractionMultiVectors(FractionMultiVectors):
+    """sparse Fraction multivectors in spaces with 6 .. 130 basis vectors through EVERY operation
+    of the model (`ga-mvq`) and the oracle of `mv-fraction`: dual / dual-dual / pseudoscalar
+    square, projections, norm_squared, scalar_product, inverse, quotient, power, ==/hash/bool"""
+    name = "mv-fraction-wide"
+
+    def _objs(self, pl):
+        sp = wide_space(pl["dims"], pl["metric"])
+        return sp, fmake(pl["a"], sp), fmake(pl["b"], sp)
+
+    def cases(self, rng, tier):
+        for i in range(150 if tier == "quick" else 3000):
+            dims = wide_dims(rng, tier)
+            metric = wide_metric(rng, dims, QMETRIC_VALUES)
+            coef = lambda: str(rand_frac(rng, zero_ok=rng.random() < 0.05))  # noqa: E731
+            nz = lambda: str(rand_frac(rng, zero_ok=False))  # noqa: E731
+            kind = i % 4
+            if kind == 0:       # a vector with far-apart components: inv returns
+                a = {str(1 << j): nz() for j in wide_indices(rng, dims, 4)} or {"1": "1"}
+            elif kind == 1:     # a basis blade
+                a = {str(bits_of(wide_indices(rng, dims, 5))): nz()}
+            else:
+                a = sparse_terms(rng, dims, 3, coef)
+            if kind == 2:
+                b = {str(bits_of(wide_partner(rng, dims, blade_list(int(next(iter(a), "0"))), 4))): nz()}
+            else:
+                b = sparse_terms(rng, dims, 3, coef, a)
+            grades = [grade(int(k)) for k in a] + [0, 1]
+            yield {"dims": dims, "metric": metric, "a": a, "b": b, "n": rng.choice([-1, 0, 1, 2, 3]),
+                   "r": rng.choice(grades)}
+
+    def shrink(self, pl):
+        yield from wide_mv_shrink(pl, "ab", "1")
+        if pl["n"] > 2:
+            yield {**pl, "n": pl["n"] - 1}
 
 # }}}
 
@@ -1584,7 +2015,8 @@ PROP = Prop(
     theorems=[],
     extractors=[extract],
     streams=[BladePairs(), MultiVectors(), FractionMultiVectors(), Z6MultiVectors(), Perms(),
-             TableRun(), ScalarOperands()],
+             TableRun(), ScalarOperands(), WideBladePairs(), WideMultiVectors(),
+             WideFractionMultiVectors()],
     probes=[probes],
     trusted_base=["Lean 4.33 kernel; axioms propext, Classical.choice, Quot.sound only",
                   "extract/geometric_algebra.py (ast reader of pymbolic/geometric_algebra/__init__.py; "
